@@ -204,6 +204,11 @@ impl Model {
             };
             n += 1;
             if n <= 24 {
+                // member sizes at the BSIZE width boundaries are part of the shape
+                match b.size {
+                    256 | 257 | 32768 | 32769 | 65535 | 65536 => s.push_str(&format!("[bsize={:#06x}]", b.size - 1)),
+                    _ => {}
+                }
                 s.push_str(c);
                 s.push(',');
             }
@@ -215,7 +220,12 @@ impl Model {
     }
 
     pub fn describe(&self) -> String {
-        let lens: Vec<String> = self.blocks.iter().take(40).map(|b| format!("{}@{}", b.len, b.off)).collect();
+        let lens: Vec<String> = self
+            .blocks
+            .iter()
+            .take(40)
+            .map(|b| if b.size >= 65535 { format!("{}@{}(member of {} bytes)", b.len, b.off, b.size) } else { format!("{}@{}", b.len, b.off) })
+            .collect();
         format!(
             "file of {} bytes, {} blocks [len@offset: {}{}], |U|={}, trailing empty blocks: {}",
             self.file_len,
